@@ -188,3 +188,19 @@ def parse_commands(source):
                 visit(ch)
     visit(tree)
     return out, err.getvalue()
+
+
+DOCUMENTED_KINDS = {"function", "macro", "cpp_class", "cpp_member", "cpp_constructor", "cpp_attr", "ct_add_test",
+                    "ct_add_section", "add_test", "option", "set", "cmake_parse_arguments"}
+
+
+def dispatch_collisions():
+    """Names a user command could have that collide with the aggregator's by-name dispatch (`process_<name>`), read from
+    the tree under test: every such name other than the documented command kinds is an ordinary command for CMake."""
+    use_repo_source()
+    import warnings
+    with warnings.catch_warnings():
+        warnings.simplefilter("ignore")
+        from cminx.aggregator import DocumentationAggregator
+    names = sorted(a[len("process_"):] for a in dir(DocumentationAggregator) if a.startswith("process_"))
+    return [n for n in names if n and n not in DOCUMENTED_KINDS]
